@@ -18,7 +18,7 @@ for pid in sys.argv[1:]:
     for md in sorted(glob.glob(f"{BASE}/{pid}.out/m*")):
         k = os.path.basename(md)
         meta = json.load(open(os.path.join(md, "meta.json")))
-        demo = meta["demo_cmd"].replace("<repo>", wt)
+        demo = meta["demo_cmd"].replace("<repo>", wt).replace("<worktree>", wt)
         clean(wt)
         rc_a, out_a = sh(demo, wt)                      # (a) demo passes on clean tree
         clean(wt)
